@@ -8,6 +8,7 @@ package main
 // gated single-assignment expressions. No path is ever executed.
 
 import (
+	"math/big"
 	"fmt"
 	"go/constant"
 	"go/token"
@@ -26,10 +27,11 @@ type Extractor struct {
 	depth           map[*ssa.Function]int
 	NoInline        map[string]bool // short names never inlined
 	cloFn           map[AtomID]*ssa.MakeClosure
-	cloFC           map[AtomID]*FC // the context that created the closure
+	cloFC           map[AtomID]*FC           // the context that created the closure
 	funcOf          map[AtomID]*ssa.Function // function values (func: atoms)
 	BenignWriteTags map[string]bool
 	caseBudget      int
+	caseAssume      []Assumption // standing assumptions of EquivByCasesUnder
 	inSign          bool
 	inUnit          bool
 	ctxDepth        int
@@ -381,19 +383,151 @@ func (x *Extractor) evalByRegions(name string, d *RF, assume []Assumption, sub m
 		}
 		regions = keep
 	}
-	if !used || len(regions) == 0 {
-		return Unknown
-	}
-	t0 := cmpTruth(name, regions[0])
-	for _, reg := range regions[1:] {
-		if cmpTruth(name, reg) != t0 {
-			return Unknown
+	if used && len(regions) > 0 {
+		t0 := cmpTruth(name, regions[0])
+		same := true
+		for _, reg := range regions[1:] {
+			if cmpTruth(name, reg) != t0 {
+				same = false
+			}
+		}
+		if same {
+			if t0 {
+				return True
+			}
+			return False
 		}
 	}
-	if t0 {
-		return True
+	// integers: an assumed comparison of the same two sides shifted by a whole constant
+	// (n <= m-1 when asked about n < m) bounds the difference all the same
+	if x.S.Integral(d) {
+		if t := x.evalByInterval(name, d, assume, sub); t != Unknown {
+			return t
+		}
 	}
-	return False
+	return Unknown
+}
+
+// evalByInterval: d is integer-valued; every assumed comparison whose
+// difference is ±d + c for a whole constant c narrows the interval of d; the
+// comparison `name` of d with 0 is decided when the interval settles it.
+func (x *Extractor) evalByInterval(name string, d *RF, assume []Assumption, sub map[AtomID]*RF) Tri {
+	var lo, hi *big.Rat // nil: unbounded
+	tighten := func(l, h *big.Rat) {
+		if l != nil && (lo == nil || l.Cmp(lo) > 0) {
+			lo = l
+		}
+		if h != nil && (hi == nil || h.Cmp(hi) < 0) {
+			hi = h
+		}
+	}
+	one := big.NewRat(1, 1)
+	for _, a := range assume {
+		if a.Cond == nil {
+			continue
+		}
+		c, truth := a.Cond, a.True
+		for {
+			ca := c.SingleAtom()
+			if ca != nil && ca.Name == "not" {
+				c, truth = ca.Args[0], !truth
+				continue
+			}
+			break
+		}
+		ca := c.SingleAtom()
+		if ca == nil || !isCmpName(ca.Name) {
+			continue
+		}
+		d2 := ca.Args[0].Sub(ca.Args[1])
+		if len(sub) > 0 {
+			d2 = d2.Subst(sub)
+		}
+		if !x.S.Integral(d2) {
+			continue
+		}
+		var k int
+		var off *big.Rat
+		if cc, ok := d2.Sub(d).IsConst(); ok && cc.IsInt() {
+			k, off = 1, cc
+		} else if cc, ok := d2.Add(d).IsConst(); ok && cc.IsInt() {
+			k, off = -1, cc
+		} else {
+			continue
+		}
+		// bounds on d2 from the comparison d2 ? 0
+		var l2, h2 *big.Rat
+		switch {
+		case ca.Name == "cmp<" && truth:
+			h2 = big.NewRat(-1, 1)
+		case ca.Name == "cmp<" && !truth:
+			l2 = new(big.Rat)
+		case ca.Name == "cmp<=" && truth:
+			h2 = new(big.Rat)
+		case ca.Name == "cmp<=" && !truth:
+			l2 = big.NewRat(1, 1)
+		case ca.Name == "cmp==" && truth, ca.Name == "cmp!=" && !truth:
+			l2, h2 = new(big.Rat), new(big.Rat)
+		default:
+			continue
+		}
+		// d2 = k*d + off  ⇒  d = (d2 - off)/k
+		if k == 1 {
+			var l, h *big.Rat
+			if l2 != nil {
+				l = new(big.Rat).Sub(l2, off)
+			}
+			if h2 != nil {
+				h = new(big.Rat).Sub(h2, off)
+			}
+			tighten(l, h)
+		} else {
+			var l, h *big.Rat
+			if h2 != nil {
+				l = new(big.Rat).Sub(off, h2)
+			}
+			if l2 != nil {
+				h = new(big.Rat).Sub(off, l2)
+			}
+			tighten(l, h)
+		}
+	}
+	if lo == nil && hi == nil {
+		return Unknown
+	}
+	zero := new(big.Rat)
+	neg1 := new(big.Rat).Neg(one)
+	switch name {
+	case "cmp<": // d < 0
+		if hi != nil && hi.Cmp(neg1) <= 0 {
+			return True
+		}
+		if lo != nil && lo.Cmp(zero) >= 0 {
+			return False
+		}
+	case "cmp<=":
+		if hi != nil && hi.Cmp(zero) <= 0 {
+			return True
+		}
+		if lo != nil && lo.Cmp(one) >= 0 {
+			return False
+		}
+	case "cmp==":
+		if lo != nil && hi != nil && lo.Sign() == 0 && hi.Sign() == 0 {
+			return True
+		}
+		if lo != nil && lo.Cmp(one) >= 0 || hi != nil && hi.Cmp(neg1) <= 0 {
+			return False
+		}
+	case "cmp!=":
+		if lo != nil && hi != nil && lo.Sign() == 0 && hi.Sign() == 0 {
+			return False
+		}
+		if lo != nil && lo.Cmp(one) >= 0 || hi != nil && hi.Cmp(neg1) <= 0 {
+			return True
+		}
+	}
+	return Unknown
 }
 
 func isIntType(t types.Type) bool {
